@@ -273,6 +273,9 @@ def compact(x):
     return x
 
 
+MAX_BATCH_BYTES = 6 * 1024 * 1024
+
+
 def validate_traces(workdir, module, cfg_text, events, shards=None, per_shard_min=200,
                     timeout=1800, env=None, tag=None, xmx="3g"):
     """Validate independent events (or whole traces) with the trace spec `module`.
@@ -288,7 +291,19 @@ def validate_traces(workdir, module, cfg_text, events, shards=None, per_shard_mi
     if shards is None:
         shards = max(1, min(NCPU, len(events) // per_shard_min))
     size = (len(events) + shards - 1) // shards
-    chunks = [(k, events[k:k + size]) for k in range(0, len(events), size)]
+    # a batch is also bounded in bytes: TLC's JSON reader needs several hundred times the file size in heap (every byte of a
+    # byte sequence becomes a boxed value), so large batches of production-size events are split further and run in waves
+    texts = [json.dumps(e, separators=(",", ":")) for e in events]
+    chunks = []
+    cur, cur_bytes, base = [], 0, 0
+    for k, t in enumerate(texts):
+        if cur and (len(cur) >= size or cur_bytes + len(t) > MAX_BATCH_BYTES):
+            chunks.append((base, cur))
+            cur, cur_bytes, base = [], 0, k
+        cur.append(t)
+        cur_bytes += len(t)
+    if cur:
+        chunks.append((base, cur))
     tdir = os.path.join(workdir, "traces_" + tag)
     os.makedirs(tdir, exist_ok=True)
     prepare_specdir(workdir)
@@ -297,7 +312,7 @@ def validate_traces(workdir, module, cfg_text, events, shards=None, per_shard_mi
         ix, (base, chunk) = ix_chunk
         path = os.path.join(tdir, "t%03d.json" % ix)
         with open(path, "w") as f:
-            json.dump(chunk, f, separators=(",", ":"))
+            f.write("[" + ",".join(chunk) + "]")
         e = {"TRACE_FILE": path}
         if env:
             e.update(env)
